@@ -471,6 +471,18 @@ package wallet
 //@ func appliedEvents props C06
 //@   assigns nothing
 //@   frame assumed
+// Every loop that turns a part of the block into events looks at every element of its range: none
+// of them is left by a break (a block may pay the wallet through several miner payouts, several
+// claims, several contract outputs; each is one event).
+//@   loop "range block.Transactions" exhaustive
+//@   loop "range block.V2Transactions()" exhaustive
+//@   loop "range txn.SiafundInputs" #1 exhaustive
+//@   loop "range txn.SiafundInputs" #2 exhaustive
+//@   loop "range cau.FileContractElementDiffs()" exhaustive
+//@   loop "range fce.FileContract.ValidProofOutputs" exhaustive
+//@   loop "range fce.FileContract.MissedProofOutputs" exhaustive
+//@   loop "range cau.V2FileContractElementDiffs()" exhaustive
+//@   loop "range block.MinerPayouts" exhaustive
 //
 // Applying a block: first the proofs of the stored elements are moved to the new state, then
 // the store gets the block's index and timestamp, the events computed from this very update,
